@@ -8,6 +8,8 @@ import common, l3, jsonx
 from checks.c01 import _get_by_pos
 
 PID = "C14"
+# update paths through array elements: positional operators are part of the field name
+POSITIONAL = ("uf1.$.zzsecretA", "uf1.$[].zzsecretA", "uf1.$[m].zzsecretA")
 SEARCH_STAGES = ("$search", "$searchMeta", "$vectorSearch", "$rankFusion")
 
 
@@ -80,7 +82,7 @@ def judge(byc, res):
 
 
 def cfgs(tier):
-    cs = [l3.Cfg("unanch", re="unanch", match_keys=("zzsecretA", "uf1.zzsecretA", "zzsecretAx")),
+    cs = [l3.Cfg("unanch", re="unanch", match_keys=("zzsecretA", "uf1.zzsecretA", "zzsecretAx") + POSITIONAL),
           l3.Cfg("anch", re="anch", num=True, bool=True, match_keys=("zzsecretA",)),
           # a pattern that is one anchored word: a name that merely starts with it does not match
           l3.Cfg("anch1", re="anch1", match_keys=("zzsecretA",))]
@@ -104,6 +106,8 @@ def run(tier):
     # every entry of the operator tables in every context (after a leading $search stage, in sub-pipelines, $facet ...) with no matching name
     # anywhere: everything is must-keep
     plan.append(("RedactorTW", {"TWShapeKinds": '{"s","os","as"}'}))
+    plan.append(("RedactorGM", dict(gm, GMDepth="4", GMFields='{"uf1", "uf1.$.zzsecretA", "uf1.$[].zzsecretA", "uf1.$[m].zzsecretA"}',
+                                    GMSlots='{"update","updates"}', GMKinds='{"plain","email","num","date"}')))
     if tier == "thorough":
         plan = [("RedactorTW", {"TWShapeKinds": "{}"}), ("RedactorGM", dict(gm, GMDepth="6", GMMaxArr="2", GMTail="2")),
                 ("RedactorGM", dict(gm, GMDepth="8", GMWide="0", GMMaxArr="2", GMMaxFld="3", GMKinds='{"plain","num","email"}'))]
